@@ -64,6 +64,17 @@ Theorem C01_failure_is_failure : forall c has_t api0 cache0 evs s tr tr1 e outs 
 Proof. exact failure_is_failure. Qed.
 Print Assumptions C01_failure_is_failure.
 
+(* The produce attempts of the batch are used up: whatever the client answers now (error codes again, failed
+   payloads, a Kafka error, nothing), every send of the batch that has not fired yet fires in this very step - by
+   C01_failure_is_failure as a failure unless that answer acknowledges it.  (Same when the producer is stopping:
+   stop() leaves no send outstanding, see ex_stop and C01_resolved_when_quiescent.) *)
+Theorem C01_limit_resolves : forall c has_t api0 cache0 evs s tr pls cur v s' o,
+  run c (init_state has_t api0 cache0) evs = (s, tr) -> ph s = Sending pls cur -> c_max c <= attempts s ->
+  result_ok c cur v = true -> step c s (EResult v) = (s', o) ->
+  forall x, In x (all_sends pls) -> In (s_id x) (outstanding s) -> In (s_id x) (oids o).
+Proof. exact limit_resolves. Qed.
+Print Assumptions C01_limit_resolves.
+
 (* ---- non-vacuity: concrete runs reaching the situations the theorems speak about ---- *)
 Definition cfg1 (acks mx : Z) := {| c_acks := acks; c_n := 1; c_b := 1; c_max := mx |}.
 Definition st1 := init_state false 1 [(0, (0, true))].
